@@ -218,7 +218,7 @@ PROPS["C06"] = dict(
     rule=("one real node with 0-12 (thorough 0-38) healthy scripted peers (cluster size 2-40), SuspicionMult 1-8, SuspicionMaxTimeoutMult 1-8, probe interval "
           "200ms/1s; the suspicion of a subject starts from an injected accusation (exact start instant) or from the node's own failed probe (start = probe "
           "instant + interval); then a timed script of up to 8 acts - confirmations from distinct peers, repeats, the original accuser, the local node, the "
-          "subject, unknown names, at the current or an older incarnation; refutation; re-suspicion; third-party death; leave; rejoin at the same incarnation after a death (the script continues after a death) - at instants drawn 1-50 ms "
+          "subject, unknown names, at the current or an older incarnation; refutation; re-suspicion; third-party death; leave; stale death and leave notices (older incarnation: must be ignored altogether); rejoin at the same incarnation after a death (the script continues after a death) - at instants drawn 1-50 ms "
           "around every analytic deadline (min, max, the timeout after c=0..k confirmations) or uniformly. Oracle: exact-arithmetic model of k, min, max and "
           "the logarithmic schedule; the leave event for the subject must occur within 1 ms of the model's instant (timer expiry, confirmation driving the timer "
           "to zero, foreign death, leave) or never (refuted), and a timer death lies in [min, max] after the start of the suspicion that caused it. "
@@ -245,8 +245,7 @@ PROPS["C08"] = dict(
           "a leave at incarnation >= held for an alive/suspect record gives left (not dead) and exactly one leave event; an alive no newer than the recorded "
           "departure/death from the same address changes nothing; an alive from a different address never changes the address of an alive, suspect or "
           "recently-dead record (conflict callback with existing/other for newer claims); after a leave (immediately) or a death older than a positive reclaim "
-          "time the claim is adopted (alive at the new address, one join event). Leaver role: the real node with 0-3 live peers, UpdateNode broadcasts pending, "
-          "accusations (suspect/dead/alive about itself) before, at the very virtual instant of (0-4 packets, offsets 0/+-1us/20us; also a held-lock schedule in which a delegate callback parks under the node lock while Leave and the claims queue behind it) and after Leave, repeated Leave: finality is judged on wire order and event order (after the self-signed dead leaves the node, no alive about itself and no join event for itself); every nil return implies own record left and, with a live peer in view, a self-signed dead sent to a live peer before the return; afterwards the node "
+          "time the claim is adopted (alive at the new address, one join event). Leaver role: the real node with 0-3 live peers, UpdateNode broadcasts pending, optionally every peer suspect in its view (still members, still to be told), accusations (suspect/dead/alive about itself) before, at the very virtual instant of (0-4 packets, offsets 0/+-1us/20us; also a held-lock schedule in which a delegate callback parks under the node lock while Leave and the claims queue behind it) and after Leave, repeated Leave: finality is judged on wire order and event order (after the self-signed dead leaves the node, no alive about itself and no join event for itself); every nil return implies own record left and, with a live peer in view, a self-signed dead sent to a live peer before the return; afterwards the node "
           "never lists itself again. non-trivial = determinate peer-role case / a Leave racing accusations or an accusation after Leave"),
     tests=[
         dict(name="peer", run="^TestLeaveFinalAndHijack$",
@@ -321,12 +320,11 @@ PROPS["C14"] = dict(
     title="Inbound authentication: only traffic sealed under an installed key is acted on",
     pkg="./props/c14",
     level="exploration",
-    rule=("three identically prepared real nodes per case (keyring of two keys, verify-incoming on, label none or 'lbl', peers speaking encryption version 0 or "
+    rule=("three identically prepared real nodes per case (keyring of three keys - primary, a middle and a last one -, verify-incoming on, optionally with the inbound label check delegated so that genuine traffic carries no header, label none or 'lbl', peers speaking encryption version 0 or "
           "1, two known members): nothing delivered / one genuine message of each of 21 kinds (ping, anonymous ping, indirect ping, ack, nack, alive new/newer, "
           "suspect, dead, leave, suspicion about the node, user, compound, compressed, CRC; stream push/pull join and anti-entropy, compressed push/pull, user, "
           "TCP ping) / a modified copy: (also enumerated: every single-bit flip of every sealed message <= 200 bytes, every 24th bit in the quick tier) bit flip or byte substitution anywhere or targeted at version, nonce, body, tag, stream type byte, length prefix, label "
-          "header; truncation, extension, splice of two ciphertexts, other/no/added label header, other associated label, foreign key, key removed before "
-          "delivery, key installed after sealing, secondary key, plaintext, double sealing. Outcome = state dump + delegate log + decoded replies to the sender "
+          "header; truncation, extension, splice of two ciphertexts, other/no/added label header, other associated label, foreign key, another cluster's complete traffic (its header and its associated label), key removed before delivery (the middle or the last one; the other must keep working) or while the stream is being read, key installed after sealing, secondary key, plaintext, double sealing. Outcome = state dump + delegate log + decoded replies to the sender "
           "+ health; oracle: outcome(modified) equals outcome(nothing) (a rejected stream may add one generic error reply) or outcome(genuine), and must be "
           "nothing for foreign/removed keys, wrong labels and plaintext. non-trivial = non-identity modification of a message whose genuine delivery is visible; "
           "distinct = distinct (message, modification, configuration)"),
@@ -515,7 +513,7 @@ PROPS["C09"] = dict(
           "sent in clear, or declares over-cap node counts / state sizes. Oracle: for every certain rejection cause (cut, authentication, cap, veto, two "
           "alive full-vector nodes whose current version lies outside the other's range) the node's state dump, Members(), event log and MergeRemoteState log "
           "are unchanged and Join returns an error with 0 successes; when Join reports success the joiner lists the host and every reported-alive row that "
-          "passes its own filters; a dead/suspect row about a held member never removes it before the minimum suspicion timeout and a refutation keeps it. "
+          "passes its own filters; a dead/suspect row about a held member never removes it before the minimum suspicion timeout and a refutation keeps it; a held member may have been upgraded (re-announced with another version vector) before the exchange; every merge is followed by an honest exchange from a peer speaking the node's own versions, which must be admitted. "
           "mutuality: a real joiner and a real host with 0-4 members: at Join's return the joiner lists everything the host listed, and with the network "
           "frozen the host lists the joiner once its handler finished. non-trivial = cut strictly inside the message / rejected non-empty list / hearsay / "
           "successful join; distinct = distinct plans"),
